@@ -304,7 +304,126 @@ def real_pool_task(payload):
     return {"violations": violations, "stats": stats}
 
 
+# ---------------------------------------------------------------------------------------
+# conformance of the pool model: schedules observed from the real pool are members of the modelled set
+
+_LOG = {"path": None, "delays": {}}
+
+
+def _logged_fva_step(reaction_id):
+    import os
+    import time
+
+    from cobra.flux_analysis import variability as V
+
+    d = _LOG["delays"].get(reaction_id, 0.0)
+    if d:
+        time.sleep(d)
+    with open(_LOG["path"], "a") as fh:
+        fh.write(f"{os.getpid()} {reaction_id}\n")
+    return _ORIG["fva"](reaction_id)
+
+
+def _logged_gene_worker(ids):
+    import os
+    import time
+
+    key = "+".join(sorted(ids))
+    d = _LOG["delays"].get(key, 0.0)
+    if d:
+        time.sleep(d)
+    with open(_LOG["path"], "a") as fh:
+        fh.write(f"{os.getpid()} {key}\n")
+    return _ORIG["gene"](ids)
+
+
+_ORIG = {}
+
+
+def conformance_task(payload):
+    """Run the real pool under a logging wrapper with every 0/5 ms delay pattern over the first k tasks and check
+    that the observed (worker -> tasks) schedule is one the pool model can produce: chunks are consecutive slices
+    of the submitted order, every worker processes whole chunks in increasing order."""
+    import itertools
+    import os
+    import tempfile
+
+    import cobra.flux_analysis.deletion as D
+    import cobra.flux_analysis.variability as V
+    from cobra.flux_analysis import flux_variability_analysis, single_gene_deletion
+
+    which, procs, k = payload["which"], payload["procs"], payload["k"]
+    stats = {"conformance_runs": 0, "observed_schedules": set()}
+    violations = []
+    _ORIG["fva"] = V._fva_step
+    _ORIG["gene"] = D._gene_deletion_worker
+    fd, path = tempfile.mkstemp(prefix="c14_log_")
+    os.close(fd)
+    _LOG["path"] = path
+    try:
+        items = ["v1", "v2", "v3", "tC", "tA"] if which == "fva" else ["g1", "g2", "g3", "g4", "g5"]
+        for pattern in itertools.product((0.0, 0.005), repeat=k):
+            _LOG["delays"] = dict(zip(items, pattern))
+            open(path, "w").close()
+            with warnings.catch_warnings():
+                warnings.simplefilter("ignore")
+                m = build_model("base")
+                if which == "fva":
+                    base = canon(flux_variability_analysis(build_model("base"), reaction_list=items, processes=1))
+                    V._fva_step = _logged_fva_step
+                    try:
+                        res = canon(flux_variability_analysis(m, reaction_list=items, processes=procs))
+                    finally:
+                        V._fva_step = _ORIG["fva"]
+                else:
+                    base = canon(single_gene_deletion(build_model("base"), items, processes=1))
+                    D._gene_deletion_worker = _logged_gene_worker
+                    try:
+                        res = canon(single_gene_deletion(m, items, processes=procs))
+                    finally:
+                        D._gene_deletion_worker = _ORIG["gene"]
+            stats["conformance_runs"] += 1
+            case = {"conformance": which, "procs": procs, "pattern": list(pattern)}
+            if not same(res, base):
+                violations.append(({"fn": which, "check": "real pool with delays differs from processes=1", "procs": procs},
+                                   case, f"{res}\n{base}"))
+            lines = [ln.split() for ln in open(path).read().splitlines()]
+            if which == "fva":
+                # two pools (minimum, maximum): split the log in two halves by count
+                half = len(lines) // 2
+                logs = [lines[:half], lines[half:]]
+                submitted = items
+            else:
+                logs = [lines]
+                submitted = None  # cobrapy iterates over a set: the submitted order is the set's iteration order
+            for lg in logs:
+                per = {}
+                for pid, it in lg:
+                    per.setdefault(pid, []).append(it)
+                if sorted(i for v in per.values() for i in v) != sorted(items if which == "fva" else items):
+                    violations.append(({"fn": which, "check": "conformance: tasks lost or duplicated in the real pool", "procs": procs},
+                                       case, str(per)))
+                    continue
+                chunksize = max(1, len(items) // procs)
+                if submitted is not None:
+                    pos = {it: i for i, it in enumerate(submitted)}
+                    for pid, its in per.items():
+                        idx = [pos[i] for i in its]
+                        ok = idx == sorted(idx) and all(
+                            idx[j] % chunksize == 0 or (j > 0 and idx[j] == idx[j - 1] + 1) for j in range(len(idx)))
+                        if not ok:
+                            violations.append(({"fn": which, "check": "conformance: observed schedule outside the pool model",
+                                                "procs": procs}, case, f"worker {pid} ran positions {idx} (chunksize {chunksize})"))
+                stats["observed_schedules"].add(tuple(sorted(tuple(v) for v in per.values())))
+    finally:
+        os.unlink(path)
+    stats["observed_schedules"] = len(stats["observed_schedules"])
+    return {"violations": violations[:20], "stats": stats}
+
+
 def dispatch(payload):
+    if payload.get("kind") == "conformance":
+        return conformance_task(payload)
     if payload.get("kind") == "sampling":
         return sampling_task(payload)
     if payload.get("kind") == "real":
@@ -320,6 +439,9 @@ def run_task(payload):  # noqa: F811
 
 
 def replay(case):
+    if case.get("conformance"):
+        r = conformance_task({"which": case["conformance"], "procs": case["procs"], "k": len(case["pattern"])})
+        return [{"sig": s, "detail": d} for s, c, d in r["violations"]]
     if case.get("sampling"):
         r = sampling_task({"procs": case["procs"], "n": case["n"], "bound": 0})
         return [{"sig": s, "detail": d} for s, c, d in r["violations"]]
@@ -357,6 +479,8 @@ def explore(ctx):
     for p in procs_menu:
         for n in (4, 5):
             payloads.append({"kind": "sampling", "procs": p, "n": n, "bound": bound})
+        for which in ("fva", "gene"):
+            payloads.append({"kind": "conformance", "which": which, "procs": p, "k": 3 if ctx.tier == "quick" else 5})
     stats = {}
     with ctx.pool(timeout=3000) as pool:
         for i, status, r0 in pool.imap(payloads):
@@ -386,6 +510,8 @@ def explore(ctx):
         "exhaustive": True, "bound_completed": {"deviations": bound}, "distinct_schedules": stats.get("schedules", 0),
         "executions": stats.get("executions", 0), "real_pool_runs": stats.get("real_pool_runs", 0),
         "max_chunks_in_one_call": stats.get("max_chunks", 0),
+        "conformance_runs_real_pool_with_delays": stats.get("conformance_runs", 0),
+        "conformance_observed_schedules": stats.get("observed_schedules", 0),
     })
     ctx.sample({"fn": "single_gene_deletion", "processes": 3, "choices": [0, 1, 0, 0, 1], "meaning": "chunk->worker, delivery"})
     ctx.assumptions += ["workers never communicate with the parent while running, so serial lock-step execution of the forked "
